@@ -84,6 +84,7 @@ func brRun(seq []brOp) string {
 	r := NewRecorder(5000)
 	now := int64(1_000_000)
 	first := map[uint16]int64{}   // first recorded arrival per number
+	all := map[uint16][]int64{}  // every recorded arrival per number
 	pending := map[uint16]bool{} // recorded since the previous build
 	nextCount := -1
 	// prime the stream away from the unwrapper's floor (a stream cannot go below its very first numbers): one packet,
@@ -93,6 +94,7 @@ func brRun(seq []brOp) string {
 		if !op.build {
 			now += op.dt
 			r.Record(1, op.seq, now)
+			all[op.seq] = append(all[op.seq], now)
 			if _, ok := first[op.seq]; !ok {
 				first[op.seq] = now
 				pending[op.seq] = true
@@ -127,11 +129,30 @@ func brRun(seq []brOp) string {
 						return fmt.Sprintf("step %d: %d reported received but never recorded", step, st.seq)
 					}
 					if d := st.arrival - at; d > 125 || d < -125 {
-						return fmt.Sprintf("step %d: %d reported at %d us, recorded at %d us", step, st.seq, st.arrival, at)
+						// "the first one still within the 500 ms history": a later arrival of the same number counts
+						// once the first one is more than 500 ms older than it
+						later := false
+						for _, a := range all[st.seq] {
+							if e := st.arrival - a; e <= 125 && e >= -125 && a-at > 500_000 {
+								later = true
+							}
+						}
+						if !later {
+							return fmt.Sprintf("step %d: %d reported at %d us, recorded at %d us", step, st.seq, st.arrival, at)
+						}
 					}
 					reported[st.seq] = true
 				} else if recorded {
-					return fmt.Sprintf("step %d: %d reported not received but it was recorded at %d us", step, st.seq, at)
+					// an arrival that has left the 500 ms history is no longer known to the recorder
+					inHistory := false
+					for _, a := range all[st.seq] {
+						if now-a <= 500_000 {
+							inHistory = true
+						}
+					}
+					if inHistory {
+						return fmt.Sprintf("step %d: %d reported not received but it was recorded at %d us", step, st.seq, at)
+					}
 				}
 			}
 		}
@@ -149,7 +170,7 @@ func brRun(seq []brOp) string {
 func TestBoundedRecorder(t *testing.T) {
 	var ops []brOp
 	for _, s := range []uint16{65533, 65534, 65535, 0, 1, 2} {
-		for _, dt := range []int64{0, 1000, 70000} {
+		for _, dt := range []int64{0, 1000, 70000, 9000000} { // 9 s: the delta no longer fits 16 bits, so the build emits a second packet
 			ops = append(ops, brOp{false, s, dt})
 		}
 	}
